@@ -459,7 +459,8 @@ func c04Requests() (qs []c04Req) {
 		}
 	}
 	names := []string{"", "Mom", "Frank's laptop", "a,b", "x|y", "Dad", " tv", "tv", "Fr\u00e9d\u00e9ric", "kids/tablet", "~guest", "10.0.0.0/40"}
-	ips := []string{"", "127.0.0.1", "192.168.0.7", "fe80::1", "10.0.0.1", "fd00::17", "::ffff:192.168.0.7", "::ffff:10.0.0.1"}
+	ips := []string{"", "127.0.0.1", "192.168.0.7", "fe80::1", "10.0.0.1", "fd00::17", "::ffff:192.168.0.7", "::ffff:10.0.0.1",
+		"10.2.3.4", "192.168.5.9"} // inside the wider of two nested values, outside the narrower
 	tagsets := [][]string{nil, {"pc"}, {"phone"}, {"pc", "phone"}, {"printer", "tv"},
 		{"a1", "a2", "a3", "a4", "a5", "a6", "a7", "pc", "phone", "tv"}} // more than eight, sorted, without "printer"
 	for _, h := range []string{"example.org", "ads.sub.example.org", "1.2.3.4"} {
@@ -586,7 +587,8 @@ func c04Slots() []c04Slot {
 	return []c04Slot{
 		{"domain", []nv{{"example.org", false}, {"sub.example.org", true}, {"example.com", false}, {"google.*", false}, {"www.google.*", true}, {"co.uk", false}, {"example.*", false}, {"example.local", false}, {"shop.example.com", false}, {"example.com", true}},
 			func(r *c04Rule, vs []nv) { r.domains = vs }},
-		{"client", []nv{{"127.0.0.1", false}, {"192.168.0.0/24", true}, {"fe80::/10", false}, {"Frank's laptop", false}, {"a,b", false}, {"Mom", false}, {"Dad", true}, {"x|y", true}, {"192.168.0.0/16", false}, {"10.0.0.1", false}, {"Mom", true}, {"fd00::/8", false}, {"::ffff:192.168.0.7", false}, {"::ffff:10.0.0.0/104", true}, {" tv", false}, {"tv", true}, {"Fr\u00e9d\u00e9ric", false}, {"kids/tablet", false}, {"~guest", false}, {"10.0.0.0/40", true}},
+		{"client", []nv{{"127.0.0.1", false}, {"192.168.0.0/24", true}, {"fe80::/10", false}, {"Frank's laptop", false}, {"a,b", false}, {"Mom", false}, {"Dad", true}, {"x|y", true}, {"192.168.0.0/16", false}, {"10.0.0.1", false}, {"Mom", true}, {"fd00::/8", false}, {"::ffff:192.168.0.7", false}, {"::ffff:10.0.0.0/104", true}, {" tv", false}, {"tv", true}, {"Fr\u00e9d\u00e9ric", false}, {"kids/tablet", false}, {"~guest", false}, {"10.0.0.0/40", true},
+			{"10.0.0.0/8", false}, {"192.168.0.0/16", true}}, // subnets that contain another value of the same sign
 			func(r *c04Rule, vs []nv) { r.clients = vs }},
 		{"ctag", []nv{{"pc", false}, {"phone", true}, {"printer", false}, {"tv", true}, {"pc", true}, {"phone", false}, {"printer", true}, {"tv", false}},
 			func(r *c04Rule, vs []nv) { r.ctags = vs }},
@@ -886,7 +888,7 @@ func c04Run(c *Ctx, qs []c04Req, only string) {
 	c.Run.Set("requests", int64(len(qs)))
 	c.Run.Set("evaluations", evals)
 	c.Run.Set("distinct_nontrivial", nrules)
-	c.Run.Set("rule", fmt.Sprintf("layer 1: for each of 6 value-list modifiers every ordered value list of length 1..%d over its alphabet (all permutations included) on three patterns; layer 2: the full product absent/representative-1/representative-2 over 9 modifier slots on two (thorough: three) patterns; pattern-target layer: 15 patterns that spell out, embed or omit the scheme (plain, $match-case, $~match-case) against URL and hostname requests; each rule against %d requests (6 URLs x 16 sources x 4 types; 3 hostnames x 5 DNS types x 9 client names (quoted, with blanks, non-ASCII) x 8 client addresses incl. IPv4-mapped x 2..5 tag sets; hexadecimal-looking host names); content-type layer: each of the 11 content-type modifiers alone, negated and in every ordered pair with the three sign combinations against a request of each of the 12 types, likewise every ordered pair of party modifiers and every document-only modifier on blocking and exception rules; distinct_nontrivial = distinct rules accepted by the parser", maxVals, len(qs)))
+	c.Run.Set("rule", fmt.Sprintf("layer 1: for each of 6 value-list modifiers every ordered value list of length 1..%d over its alphabet (all permutations included) on three patterns; layer 2: the full product absent/representative-1/representative-2 over 9 modifier slots on two (thorough: three) patterns; pattern-target layer: 15 patterns that spell out, embed or omit the scheme (plain, $match-case, $~match-case) against URL and hostname requests; each rule against %d requests (6 URLs x 16 sources x 4 types; 3 hostnames x 5 DNS types x 9 client names (quoted, with blanks, non-ASCII) x 10 client addresses incl. IPv4-mapped and addresses between nested subnets x 2..5 tag sets; hexadecimal-looking host names); content-type layer: each of the 11 content-type modifiers alone, negated and in every ordered pair with the three sign combinations against a request of each of the 12 types, likewise every ordered pair of party modifiers and every document-only modifier on blocking and exception rules; distinct_nontrivial = distinct rules accepted by the parser", maxVals, len(qs)))
 	c.Run.Set("exhaustive", exhaustive)
 	c.Run.Assumption("request fields (hostnames, third-party) are taken from rules.NewRequest; their correctness is property C17")
 	c.Run.Assumption("the pattern reference is the C03 mask automaton run on the URL, or on the bare hostname for hostname requests unless the pattern starts with ||, http://, https:// or ://")
